@@ -750,13 +750,16 @@ where
             reusable: bool,
             hasher: &dyn Fn(&ValueKey) -> u64,
         ) {
+            // Insert into the key map first: growing the map re-hashes the existing values with
+            // user code, and if that panics the new value must not be left on the LRU list
+            // without a key map entry.
+            insert_unique_erased(shard, hash, value_key, hasher);
+
             if reusable {
                 // SAFETY: The caller guarantees that `entry` points to a live `LruEntry` and was
                 // derived from its enclosing value.
                 unsafe { shard.lru.push_front(UnsafeRef::from_raw(entry)) };
             }
-
-            insert_unique_erased(shard, hash, value_key, hasher);
 
             debug_assert_eq!(hash, hasher(&value_key));
         }
